@@ -135,6 +135,14 @@ pub fn value_cases(thorough: bool, rng: &mut Rng, out: &mut Out) {
     let leaves = leaf_values();
     let mut vals = small_values(&leaves[..if thorough { 9 } else { 6 }]);
     for _ in 0..(if thorough { 250 } else { 60 }) { vals.push(random_value(rng, 3)); }
+    // floats that differ in the last place, alone and nested (equality of values is exact, not up to a tolerance)
+    for (a, b) in [(0.1f64, 0.10000000000000002f64), (0.3, 0.30000000000000004), (1.0, 1.0000000000000002), (100.5, 100.50000000000001)] {
+        for f in [a, b] {
+            vals.push(q::Value::Float(f));
+            vals.push(q::Value::List(vec![q::Value::Float(f), q::Value::Int(1.into())]));
+            let mut m = BTreeMap::new(); m.insert("x".to_string(), q::Value::List(vec![q::Value::Float(f)])); vals.push(q::Value::Object(m));
+        }
+    }
     let m = bits(vals.iter().flat_map(|a| vals.iter().map(move |b| (a, b))).map(|(a, b)| a.compare(b)));
     // oracle: structural equality of the real AST values (graphql-parser's derived PartialEq)
     let n = vals.len(); let mb: Vec<bool> = m.chars().map(|c| c == '1').collect();
